@@ -144,3 +144,8 @@ Definition lower_pkg (p : Impl.pkg) : Z -> Z :=
   match p with Impl.Str => lower_str | Impl.Byt => lower_byt end.
 Lemma fold_facts_pkg p : fold_facts fold121 (lower_pkg p).
 Proof. destruct p; [apply fold_facts_str|apply fold_facts_byt]. Qed.
+
+Theorem rune_error_alone x : int32 x -> (fold121 x = fold121 RuneError <-> x = RuneError).
+Proof.
+  intros Hx. apply alone_in_orbit; [unfold int32, RuneError; lia|exact Hx|apply nonmember_special].
+Qed.
